@@ -44,6 +44,18 @@ def p_field(x):
                 return 'after reading the names of the field, alternative %r reports names %r' % (str(alt), sorted(alt.names))
     if sorted(r.names) != G.names(f) or _deps.rel_tree(r) != G.tree(f) or str(r) != canonical:
         return 'reading names changes the parsed field %r' % text
+    # copies of the parsed field are the field: same structure, same spelling, equal; iterating it yields its members
+    import copy
+    import pickle
+    for how, c in (('a deep copy', copy.deepcopy(r)), ('a shallow copy', copy.copy(r)), ('an unpickled copy', pickle.loads(pickle.dumps(r)))):
+        if _deps.rel_tree(c) != G.tree(f) or str(c) != canonical or c != r or not (c == r):
+            return '%s of the field parsed from %r is %r, printed %r' % (how, text, _deps.rel_tree(c), str(c))
+    try:
+        members = list(iter(r))
+    except TypeError:
+        members = None
+    if members is not None and [_deps.rel_tree(m) for m in members] != G.tree(f)[1]:
+        return 'iterating the field parsed from %r yields %r' % (text, [_deps.rel_tree(m) for m in members])
     # evaluating the field against candidate packages is looking at it: structure, spelling and equality stay
     for n in G.names(f)[:4] + ['zz']:
         for cand in (None, '1.0', '0:1.2', '9'):
